@@ -10,7 +10,7 @@ PROP = {
             "requires incl. cycles, enums/aliases used before their defining file) analysed (P+1)*K times per entry point (production update_files_by_uri; sorted id-order batch) "
             "with the same registration order: K in the worker + K in each of P fresh child processes (quick P=4,K=4; thorough P=8,K=6); "
             "distinct = hash of (texts, config); non-trivial = >= 3 files, >= 6 chunks, samples from >= 1 child process",
-    "min_nontrivial": {"quick": 30, "thorough": 400},
+    "min_nontrivial": {"quick": 15, "thorough": 200},
     "max_secs": {"quick": 60, "thorough": 1000},
     "require_clauses": ["entry:production", "entry:sorted", "child-processes", "analyses"],
     "assumptions": COMMON_ASSUME + [
